@@ -5,6 +5,11 @@ interpreter subprocesses* (harness/worker_seed.py) under several PYTHONHASHSEED 
 permutations of the default list (31 groups in the code under verification) and of generated lists of connected
 patterns, anti-pattern free AND with anti-patterns that really exclude would-be descendants (corpus + generator
 `gen_anti_list`; the expected relation is the oracle's: true embedding order with the anti-pattern veto).
+Every list is SUBMITTED IN ALL ITS DOCUMENTED FORMS (one form per order of the list, rotating): a list of FGConfig objects,
+a list of dictionaries with every anti-pattern written as a LIST / with every one-element anti-pattern written as a plain
+STRING (`anti_pattern: str | list[str]`), `build_config_tree_from_list` directly, a single FGConfig (one-element lists),
+`FGConfigProvider()` (default list), with the mapper given or left to the provider's identical default — every form is
+judged against the same model and specification, so all forms must yield the same hierarchy.
 Observable: the set of (parent, child) links and the set of roots.
 Compared with (i) the Lean model (`C07.buildTreeE` over the matcher model) and (ii) the Hasse diagram
 of the TRUE embedding order (`C07.specCheck`, embeddings enumerated in Lean; cross-checked against
@@ -32,6 +37,9 @@ MAPPER = enc_mapper("R", True, [])
 # ---------------------------------------------------------------------------
 # fresh-interpreter workers
 # ---------------------------------------------------------------------------
+LAST_TIMES = []     # (wall seconds, hash seed, number of jobs) of every worker process of this run (diagnostics only)
+
+
 def run_workers(batches, timeout=3000):
     """batches: list of (hashseed, [job, …]) -> list of [result, …] (same order).
     Every batch runs in its own fresh interpreter with PYTHONHASHSEED=<hashseed>."""
@@ -43,8 +51,10 @@ def run_workers(batches, timeout=3000):
         env["PYTHONHASHSEED"] = str(seed)
         env["FGUTILS_REPO"] = common.REPO
         inp = "".join(json.dumps(j) + "\n" for j in jobs)
+        t0 = time.time()
         p = subprocess.run([sys.executable, WORKER], input=inp, stdout=subprocess.PIPE, stderr=subprocess.PIPE,
                            text=True, env=env, timeout=timeout)
+        LAST_TIMES.append((round(time.time() - t0, 1), seed, len(jobs)))
         lines = [ln for ln in p.stdout.split("\n") if ln.strip()]
         if p.returncode != 0 or len(lines) != len(jobs):
             raise RuntimeError("worker (PYTHONHASHSEED=%s) failed: rc=%s, %d/%d answers\n%s" % (
@@ -375,6 +385,11 @@ def gen_anti_list(rng):
         k = rng.randint(2, min(6, len(others)))
         pats = [parent] + rng.sample(others, k)
         antis = {0: list(anti) if rng.random() < 0.7 else [rng.choice(anti)]}
+        if rng.random() < 0.35:
+            # a further, larger anti-pattern (one of the family's bigger members): anti-patterns of different sizes
+            big = rng.choice(sorted(others, key=len)[len(others) // 2:])
+            if big not in antis[0]:
+                antis[0].insert(rng.randrange(len(antis[0]) + 1), big)
         if rng.random() < 0.3:        # a second carrier taken from another family
             p2, a2, o2 = rng.choice(ANTI_FAMILIES)
             if p2 not in pats:
@@ -420,6 +435,24 @@ def gen_anti_list(rng):
                 w = write_pattern(rng, g2[0], g2[1], explicit=0.0)
                 if w:
                     cands.insert(rng.randrange(len(cands) + 1), w)
+            if rng.random() < 0.45:
+                # plus a LARGER anti-pattern (more atoms than the descendant the first one is cut from): several
+                # anti-patterns of different sizes on one carrier — in whatever order the code keeps them, the small
+                # one must still be consulted for the small descendant
+                big = None
+                bigger = [k for k in desc[i] if parsed[k].number_of_nodes() > parsed[j].number_of_nodes()]
+                if bigger and rng.random() < 0.5:
+                    big = pats[rng.choice(bigger)]
+                else:
+                    syms2, edges2 = list(se[0]), dict(se[1])
+                    for _ in range(rng.randint(1, 3)):
+                        deg = [sum(1 for e in edges2 if x in e) for x in range(len(syms2))]
+                        at = rng.choice([x for x in range(len(syms2)) if deg[x] < 4] or [0])
+                        syms2.append(rng.choice(LEAF))
+                        edges2[(at, len(syms2) - 1)] = 1
+                    big = write_pattern(rng, syms2, edges2, explicit=0.0)
+                if big and big not in cands:
+                    cands.insert(rng.randrange(len(cands) + 1), big)
             antis[i] = cands
         tags.add("anti:derived-from-descendant")
     dicts = []
@@ -433,6 +466,55 @@ def gen_anti_list(rng):
     rng.shuffle(order)
     dicts = [dict(dicts[i], name="g%d" % k) for k, i in enumerate(order)]
     return dicts, tags
+
+
+# ---------------------------------------------------------------------------
+# forms in which one configuration list can be submitted (worker_seed.job_tree)
+# ---------------------------------------------------------------------------
+def submission(form, anti_as=None, mapper_omitted=False):
+    return {"form": form, "anti_as": anti_as, "mapper_omitted": bool(mapper_omitted)}
+
+
+def forms_for(info, n_orders, rot, rng):
+    """one submission per order of the list; every documented form of THIS list occurs (lists with anti-patterns get
+    one order per form), the rotation `rot` decides which order meets which form"""
+    if info.is_default:
+        fs = [submission("default-none"), submission("dicts", "list"), submission("objs"), submission("direct"),
+              submission("dicts", "str"), submission("objs", mapper_omitted=True)]
+        # the default list in its own order can be asked for without naming it; the other orders need the list
+        return [fs[0]] + [fs[1 + (k + rot) % (len(fs) - 1)] for k in range(n_orders - 1)]
+    if info.n == 1:
+        fs = [submission("single"), submission("objs"), submission("dicts", "str"), submission("direct"), submission("dicts", "list")]
+    elif info.has_anti:
+        fs = [submission("objs"), submission("dicts", "str"), submission("dicts", "list"), submission("direct")]
+    else:
+        fs = [submission("objs"), submission("dicts"), submission("direct")]
+    out = [dict(fs[(k + rot) % len(fs)]) for k in range(n_orders)]
+    for f in out:
+        if f["form"] != "direct" and rng.random() < 0.15:
+            f["mapper_omitted"] = True
+    return out
+
+
+def form_tags(info, sub):
+    f = sub["form"]
+    t = {"form:" + {"objs": "list-of-FGConfig", "dicts": "list-of-dicts", "single": "single-FGConfig",
+                    "default-none": "FGConfigProvider()", "direct": "build_config_tree_from_list"}[f]}
+    if f == "dicts" and info.has_anti:
+        import worker_seed
+        written = [d.get("anti_pattern") for d in worker_seed.anti_as(info.dicts, sub.get("anti_as"))]
+        if any(isinstance(a, str) for a in written):
+            t.add("form:anti-pattern-as-plain-string")
+        if any(isinstance(a, list) for a in written):
+            t.add("form:anti-pattern-as-list")
+    if sub.get("mapper_omitted"):
+        t.add("form:mapper-left-to-the-provider")
+    return t
+
+
+def tree_job(info, order, sub):
+    return {"op": "tree", "cfgs": None if info.is_default else info.dicts, "order": order, "direct": sub["form"] == "direct",
+            "form": sub["form"], "anti_as": sub.get("anti_as"), "mapper_omitted": bool(sub.get("mapper_omitted"))}
 
 
 # ---------------------------------------------------------------------------
@@ -505,6 +587,7 @@ class ListInfo:
         self.has_cycle = any(o.pattern.number_of_edges() >= o.pattern.number_of_nodes() for o in self.objs) or \
             any(a.number_of_edges() >= a.number_of_nodes() for o in self.objs for a in o.anti_pattern)
         self.has_anti = any(o.anti_pattern for o in self.objs)
+        self.anti_sizes_differ = any(len({a.number_of_nodes() for a in o.anti_pattern}) > 1 for o in self.objs)
         lt = self.lt = [[i != j and emb[i][j] and not emb[j][i] and not anti[i][j] for j in range(n)]
                         for i in range(n)]
         self.cover = sorted([i, j] for i in range(n) for j in range(n)
@@ -562,8 +645,12 @@ class RaisedOut(ImplError):
         self.text = text or kind
 
 
-def make_cases(info, order, results_by_seed, envseed, direct, tags):
-    """one Case per distinct implementation answer among the seeds"""
+def make_cases(info, order, results_by_seed, envseed, sub, tags):
+    """one Case per distinct implementation answer among the seeds; sub = the form in which the list was submitted"""
+    if not isinstance(sub, dict):
+        sub = submission("direct" if sub else "objs")
+    direct = sub["form"] == "direct"
+    tags = set(tags) | form_tags(info, sub)
     n = info.n
     inv = {b: p for p, b in enumerate(order)}
     groups = {}
@@ -578,7 +665,7 @@ def make_cases(info, order, results_by_seed, envseed, direct, tags):
             impl = [[list(l) for l in out[0]], list(out[1])]
         req = [Atom("C07"), Atom("tree"), MAPPER, cfgs_perm, envseed]
         meta = {"cfgs": None if info.is_default else info.dicts, "patterns": [d["pattern"] for d in info.dicts],
-                "order": list(order), "hashseeds": [s for s, _ in members], "direct": direct,
+                "order": list(order), "hashseeds": [s for s, _ in members], "direct": direct, "submitted_as": sub,
                 "has_cycle": info.has_cycle, "matcher_differs": info.matcher_differs,
                 "anti_patterns": [d.get("anti_pattern") for d in info.dicts] if info.has_anti else None,
                 "pairs_removed_by_the_anti_pattern_veto": [[inv[i], inv[j]] for i, j in info.veto_pairs],
@@ -596,6 +683,8 @@ def make_cases(info, order, results_by_seed, envseed, direct, tags):
             t.add("comparable-pair-with-equal-(len,size)")
         if info.has_anti:
             t.add("has-anti-pattern")
+            if info.anti_sizes_differ:
+                t.add("anti:several-anti-patterns-of-different-sizes-on-one-group")
             if info.veto_pairs:
                 t.add("anti:veto-removes-a-would-be-descendant")
             if info.veto_changes_hierarchy:
@@ -620,6 +709,11 @@ def load_corpus():
     return [corpus_dicts(e) for e in json.load(open(p))]
 
 
+# one-element lists: the provider also accepts a single FGConfig object instead of a list
+SINGLETONS = [[{"name": "g0", "pattern": "ROR", "anti_pattern": "ROH"}], [{"name": "g0", "pattern": "CCOH", "anti_pattern": ["CC(O)O"]}],
+              [{"name": "g0", "pattern": "RC(=O)OR"}], [{"name": "g0", "pattern": "c1ccccc1O", "anti_pattern": ["cOC", "C=O"]}]]
+
+
 def corpus_dicts(e):
     """a corpus entry is either {"patterns": [...]} (anti-pattern free) or {"cfgs": [{"pattern": …, "anti_pattern": …} …]}"""
     if "cfgs" in e:
@@ -638,13 +732,14 @@ def plan(rng, tier):
         o = list(range(nd))
         rng.shuffle(o)
         orders.append(o)
-    for dicts in load_corpus():
+    for dicts in load_corpus() + SINGLETONS:
         os_ = [list(range(len(dicts))), list(reversed(range(len(dicts))))]
-        if any("anti_pattern" in d for d in dicts):
+        # one order per documented form of the list (forms_for): three without, four with anti-patterns, five for singletons
+        for _ in range(3 if len(dicts) == 1 else 2 if any("anti_pattern" in d for d in dicts) else 1):
             o = list(range(len(dicts)))
             rng.shuffle(o)
             os_.append(o)
-        plans.append((dicts, os_, {"corpus"}))
+        plans.append((dicts, os_, {"corpus"} | ({"single-config"} if len(dicts) == 1 else set())))
     plans.append((None, orders, {"default-list"}))
     # lists with anti-patterns: generated until enough of them are in the domain (connected, no mutual pair, vetoed
     # relation still transitive) AND have a veto that removes a would-be descendant; everything generated on the way
@@ -664,7 +759,7 @@ def plan(rng, tier):
         if info.in_domain and info.veto_pairs:
             got += 1
         os_ = [list(range(len(dicts)))]
-        for _ in range(2):
+        for _ in range(3):              # four orders: one per documented form of a list with anti-patterns
             o = list(range(len(dicts)))
             rng.shuffle(o)
             os_.append(o)
@@ -734,11 +829,11 @@ def run(tier, seed):
     jobs = []
     index = []
     for li, (info, orders, tags) in enumerate(infos):
+        # every list goes through ALL its documented forms, one per order (which order meets which form rotates)
+        subs = forms_for(info, len(orders), li, rng)
         for oi, order in enumerate(orders):
-            direct = (li + oi) % 2 == 1
-            jobs.append({"op": "tree", "cfgs": None if info.is_default else info.dicts, "order": order,
-                         "direct": direct})
-            index.append((li, oi, direct))
+            jobs.append(tree_job(info, order, subs[oi]))
+            index.append((li, oi, subs[oi]))
     # quick: every job under every seed; thorough: the jobs are dealt round-robin into 16 shards and every
     # shard is answered by two fresh interpreters with different seeds (default-list jobs: four)
     batches = []
@@ -768,9 +863,9 @@ def run(tier, seed):
     r.notes["worker_wall_s"] = round(time.time() - t0, 1)
     # ---- cases -----------------------------------------------------------------------------------
     cases = []
-    for ji, (li, oi, direct) in enumerate(index):
+    for ji, (li, oi, sub) in enumerate(index):
         info, orders, tags = infos[li]
-        cases += make_cases(info, orders[oi], by_job[ji], envseed=(ji % 5), direct=direct, tags=tags)
+        cases += make_cases(info, orders[oi], by_job[ji], envseed=(ji % 5), sub=sub, tags=tags)
     outs = r.evaluate(cases, classify_known=classify_known_factory(common.load_known_findings()))
     # ---- cross-checks of the oracles and of the theorem's hypotheses ------------------------------
     oracle_mismatch = []
@@ -823,8 +918,11 @@ def run(tier, seed):
         rule="permutations of the default list (31 groups) and of generated lists of 3-8 connected patterns (random trees, rings, fused rings, aromatic rings, "
              "sub-patterns of a common super-pattern, wildcard-blurred and case variants, ring-opened variants with equal node counts, templates), plus lists WITH anti-patterns "
              "(chemistry families such as CO/anti COC, C=O/anti OC=O, and generated lists in which an entry gets a piece of one of its descendants as anti-pattern; one or several "
-             "anti-patterns, given as list or plain string; generated until 40 (quick) / 1500 (thorough) in-domain lists with an effective veto exist), each built in fresh "
-             "interpreters under several PYTHONHASHSEED values; one case per distinct answer; non-trivial = list with at least one covering pair, distinct by (patterns, order)",
+             "anti-patterns of different sizes per group; generated until 40 (quick) / 1500 (thorough) in-domain lists with an effective veto exist), each built in fresh "
+             "interpreters under several PYTHONHASHSEED values. EVERY list is submitted in ALL its documented forms, one per order of the list (tags form:*): list of FGConfig objects, "
+             "list of dictionaries (anti-patterns all written as lists / every one-element anti-pattern written as a plain string), build_config_tree_from_list directly, "
+             "a single FGConfig (one-element lists), FGConfigProvider() for the default list, mapper given or left to the provider's identical default (15%); all forms are judged "
+             "against the same model and specification; one case per distinct answer; non-trivial = list with at least one covering pair, distinct by (patterns, order)",
         checker_cmd="cd lean && lake build " + " ".join(PROOFS) + " && lake env lean FGVerif/Audit/C07.lean",
         explanation="theorems in lean/FGVerif/Proofs/C07.lean about Model/C07.lean (order-theoretic core: buildTree computes the Hasse diagram for every list order and every set-iteration order; "
                     "default list instance by kernel decision on the regenerated table; Proofs/C07Anti.lean: on the corpus lists whose anti-patterns really exclude would-be descendants the model's "
@@ -852,15 +950,17 @@ def replay(path):
         return 0 if r.build.proofs_ok and not r.audit_bad else 1
     info = ListInfo(meta.get("cfgs"))
     seeds = meta.get("hashseeds") or [0]
-    job = {"op": "tree", "cfgs": meta.get("cfgs"), "order": meta["order"], "direct": meta.get("direct", False)}
+    sub = meta.get("submitted_as") or submission("direct" if meta.get("direct") else "objs")
+    job = tree_job(info, meta["order"], sub)
     # object addresses (hence set iteration order) vary from process to process even under one hash seed:
     # every recorded seed is replayed in four fresh interpreters
     runs = [(s, [job]) for s in seeds for _ in range(4)]
     res = run_workers(runs)
-    cases = make_cases(info, meta["order"], [(s, x[0]) for (s, _), x in zip(runs, res)], 0, job["direct"], {"replay"})
+    cases = make_cases(info, meta["order"], [(s, x[0]) for (s, _), x in zip(runs, res)], 0, sub, {"replay"})
     outs = r.evaluate(cases, classify_known=classify_known_factory(common.load_known_findings()))
     for o in outs:
         o.case.meta.pop("_py_hasse", None)
+        print("replay: submitted as %s" % (sub,))
         print("replay: patterns=%s anti_patterns=%s order=%s hashseeds=%s\n  impl=%s\n  model=%s\n  expected(hasse)=%s spec_impl=%s" % (
             meta.get("patterns"), o.case.meta.get("anti_patterns"), meta["order"], o.case.meta["hashseeds"], common.sx_of(o.impl_c),
             common.sx_of(o.model), common.sx_of(o.extra[0]) if o.extra else "?", o.spec_impl))
